@@ -86,8 +86,10 @@ fn main() {
     let known = load_known(&verif_dir);
     let code = dispatch!(id.as_str(), &ctx, &known, replay.as_deref(),
         "C03" => c03,
+        "C12" => c12,
         "C16" => c16,
-        "C17" => c17
+        "C17" => c17,
+        "C18" => c18
     );
     std::process::exit(code);
 }
